@@ -15,6 +15,7 @@ import IocProofs.Lemmas.ConfigSeq
 import IocProofs.Lemmas.ConfigInit
 import IocProofs.Lemmas.SemConfigure
 import IocProofs.Lemmas.SemAppOptions
+import IocProofs.Lemmas.SemLoaders
 namespace Ioc.C15
 open Ioc Ioc.Config
 
@@ -451,5 +452,37 @@ theorem C15_code_SetConfigure (c : Nat) (w : AW) :
   setConfigure_sem c w
 
 end options
+
+/-! ### the three loaders, REGENERATED (interpretation Ioc.SemLoaders: string functions, strconv2.ParseAny, the properties map,
+    yaml.Marshal and os.ReadFile are parameters) -/
+section loaders
+open Ioc.Go Ioc.Sem
+
+/-- ArgsLoader.LoadConfig: the arguments in order; only those with the prefix `--app.config` count; each is `key[=value]` split
+    at the FIRST "=", the value (empty when there is none) parsed into a typed value and set under the key, later arguments
+    after earlier ones; a parse error ends the call; no setting at all gives (nil, nil) — no document rather than an empty one,
+    so this source then contributes nothing and drops nothing; otherwise the YAML of the settings, a marshalling error wrapped -/
+theorem C15_code_ArgsLoader (p : ALP) (w : List (String × Nat)) :
+    run (alPrims p) Progs.loader_Args [] w =
+      (let r := stepLoop (alStep p) p.args () w
+       match r.2.2 with
+       | some v => some (v, r.2.1)
+       | none =>
+         if p.plen r.2.1 = 0 then some (.tuple [.nil, .nil], r.2.1)
+         else some (match p.marshal r.2.1 with
+                    | .ok b => .tuple [.ref b 151, .nil]
+                    | .error e => .tuple [.nil, .str ("marshal to YAML: " ++ e)], r.2.1)) :=
+  argsLoader_sem p w
+
+/-- FileLoader: the file's bytes, a read error wrapped with no bytes; RawLoader: the bytes it was built from, never an error -/
+theorem C15_code_File_Raw_Loader (path : String) (read : String → Except String Nat) (raw : Go.Val) :
+    run (flPrims path read) Progs.loader_File [] () =
+      some (match read path with
+            | .ok b => .tuple [.ref b 151, .nil]
+            | .error e => .tuple [.nil, .str ("read file: " ++ e)], ()) ∧
+    run (rlPrims raw) Progs.loader_Raw [] () = some (.tuple [raw, .nil], ()) :=
+  ⟨fileLoader_sem path read, rawLoader_sem raw⟩
+
+end loaders
 
 end Ioc.C15
